@@ -2361,6 +2361,10 @@ func (db *DB) Drop(ctx context.Context) (err error) {
 	}
 	defer guardSet.Unlock()
 
+	// Now that no other writer can commit, read the position again.
+	prevPos, prevPageN = db.Pos(), db.PageN()
+	txID = prevPos.TXID + 1
+
 	// Open file descriptors for the header & page blocks for new LTX file.
 	ltxPath := db.LTXPath(txID, txID)
 	tmpPath := ltxPath + ".tmp"
